@@ -23,12 +23,12 @@ type c08obs struct {
 	Roots   string
 }
 
-func c08observe(in *cons.Inst, err error, newBlocks []*cons.Block) c08obs {
+func c08observe(in *cons.Inst, err error, newBlocks []*cons.Block, probeRoots bool) c08obs {
 	o := c08obs{Err: err != nil, Epoch: in.Epoch(), Vals: in.Store.GetValidators().String(), Decided: in.Store.GetLastDecidedFrame()}
 	for _, b := range newBlocks {
 		o.Blocks += fmt.Sprintf("[ep%d f%d %s %v n=%d sealed=%v boot=%v]", b.Epoch, b.Frame, b.Atropos.String(), b.Cheaters, len(b.Events), b.Sealed, b.InBoot)
 	}
-	for f := o.Decided; f <= o.Decided+3; f++ {
+	for f := o.Decided; probeRoots && f <= o.Decided+3; f++ {
 		if f == 0 {
 			continue
 		}
@@ -48,7 +48,7 @@ func runC08(c *ev.Ctx) {
 		"Oracle per event: Process error/nil, newly emitted blocks (epoch, frame, Atropos, cheaters, delivered count, sealed), epoch, validators, last decided frame and the root sets of frames decided..decided+3 are identical to A's; no block is emitted while Bootstrap runs. " +
 		"non-trivial = distinct (run, boundary) pairs where the boundary directly follows a decision or an epoch seal"
 	c.Assumptions = []string{"the application's event storage (EventSource) survives the restart; main DB and the current epoch DB are what abft persists", "cheaters < 1/3"}
-	nRuns := c.Pick(48, 400)
+	nRuns := c.Pick(240, 2400)
 	allLimit := c.Pick(110, 260)
 	c.Parallel(nRuns, 0, func(i int) {
 		r := c.Rand("run", i)
@@ -108,7 +108,9 @@ func runC08(c *ev.Ctx) {
 			if err != nil && in.Crit != nil {
 				return c08obs{Err: true, Blocks: "CRIT " + err.Error()}, true
 			}
-			return c08observe(in, err, in.Blocks[nb:]), true
+			// probing the root registry touches its cache (entries are then rebuilt from the database order), which
+			// could hide order-dependent behaviour of the long-running instance: only every second run probes it
+			return c08observe(in, err, in.Blocks[nb:], i%2 == 0), true
 		}
 		type clone struct {
 			in   *cons.Inst
